@@ -21,7 +21,7 @@ def answerLine (docs : Driver.Gen.Docs) (line : String) : Driver.Gen.Docs × Str
       match Driver.Gen.answer docs items with
       | some r => r
       | none => (docs,
-      match [Driver.Thrift.answer, Driver.Thrift2.answer, Driver.Thrift3.answer, Driver.Pb.answer, Driver.Idl.answer, Driver.Build.answer, Driver.Graph.answer].findSome? (· items) with
+      match [Driver.Thrift.answer, Driver.Thrift2.answer, Driver.Thrift3.answer, Driver.Pb.answer, Driver.Idl.answer, Driver.Build.answer, Driver.Graph.answer, Driver.Graph.answerD].findSome? (· items) with
       | some a => a
       | none => "bad-request")
 
